@@ -19,6 +19,8 @@ enum Elt {
     Unimpl(String, Req),
     /// opcode value the protocol does not define: an error response or closing the connection
     Undefined(String, Req),
+    /// a request whose body exceeds the item size limit: exactly one response, status 0x03
+    Oversized(String, Req),
     Quit,
     QuitQ,
 }
@@ -30,7 +32,7 @@ impl Elt {
                 let k = c.key().map(|k| String::from_utf8_lossy(k).to_string()).unwrap_or_default();
                 format!("{}{}{}", c.kind(), if c.is_quiet() { "q" } else { "" }, if k.is_empty() { String::new() } else { format!("({})", k) })
             }
-            Elt::Unimpl(n, _) | Elt::Undefined(n, _) => n.clone(),
+            Elt::Unimpl(n, _) | Elt::Undefined(n, _) | Elt::Oversized(n, _) => n.clone(),
             Elt::Quit => "quit".into(),
             Elt::QuitQ => "quitq".into(),
         }
@@ -38,7 +40,7 @@ impl Elt {
     fn opname(&self) -> String {
         match self {
             Elt::C(c) => wire::op_name(c.opcode()).to_string(),
-            Elt::Unimpl(n, _) | Elt::Undefined(n, _) => n.clone(),
+            Elt::Unimpl(n, _) | Elt::Undefined(n, _) | Elt::Oversized(n, _) => n.clone(),
             Elt::Quit => "quit".into(),
             Elt::QuitQ => "quitq".into(),
         }
@@ -46,7 +48,7 @@ impl Elt {
     fn req(&self, opaque: u32) -> Req {
         match self {
             Elt::C(c) => c.to_req(0, opaque).unwrap(),
-            Elt::Unimpl(_, r) | Elt::Undefined(_, r) => r.clone().opaque(opaque),
+            Elt::Unimpl(_, r) | Elt::Undefined(_, r) | Elt::Oversized(_, r) => r.clone().opaque(opaque),
             Elt::Quit => Req::bare(op::QUIT).opaque(opaque),
             Elt::QuitQ => Req::bare(op::QUITQ).opaque(opaque),
         }
@@ -102,6 +104,8 @@ fn alphabet() -> Vec<Elt> {
     v.push(Elt::Unimpl("sasl_list".into(), Req::bare(op::SASL_LIST)));
     v.push(Elt::Unimpl("sasl_auth".into(), Req::new(op::SASL_AUTH).key(b"PLAIN").value(b"\0u\0p")));
     v.push(Elt::Unimpl("sasl_step".into(), Req::new(op::SASL_STEP).key(b"PLAIN").value(b"x")));
+    v.push(Elt::Oversized("set-oversized".into(), Req::store(op::SET, b"big", &vec![b'B'; 1500], 0, 0, 0)));
+    v.push(Elt::Oversized("setq-oversized".into(), Req::store(op::SETQ, b"big", &vec![b'B'; 1500], 0, 0, 0)));
     v.push(Elt::Undefined("op0x1b".into(), Req::bare(0x1b)));
     v.push(Elt::Undefined("op0x1f".into(), Req::bare(0x1f)));
     v.push(Elt::Quit);
@@ -200,6 +204,16 @@ fn run_stream(alpha: &[Elt], seq: &[usize], bytewise: bool, cuts: Option<&[usize
                     break;
                 }
             }
+            Elt::Oversized(..) => match &r {
+                Some(x) if x.status == st::TOO_LARGE => {}
+                other => {
+                    problem = Some((
+                        format!("no-response|{}", elt.opname()),
+                        format!("request #{} {} answered {}, expected exactly one 0x03", i, elt.name(), other.as_ref().map(|x| x.short()).unwrap_or("(nothing)".into())),
+                    ));
+                    break;
+                }
+            },
             Elt::Undefined(..) => match &r {
                 Some(x) if x.status != st::OK => {}
                 Some(x) => {
@@ -328,7 +342,22 @@ pub fn check(tier: Tier, threads: usize) -> CheckOutcome {
     crate::watchdog::working_on("C12 pipelined streams".into());
     let results = par_map(&streams, threads, |_, sq| -> Result<(Outcome, Outcome, Option<Outcome>), String> {
         let a = run_stream(&alpha, sq, false, None)?;
-        let b = run_stream(&alpha, sq, true, None)?;
+        let mut b = run_stream(&alpha, sq, true, None)?;
+        // a stream with an oversized request is also delivered in three pieces cut inside that body
+        if b.viol.is_none() {
+            let mut off = 0usize;
+            for (i, e) in sq.iter().enumerate() {
+                let len = alpha[*e].req(i as u32).bytes().len();
+                if matches!(alpha[*e], Elt::Oversized(..)) {
+                    let o = run_stream(&alpha, sq, false, Some(&[off + 24 + 100, off + len - 300]))?;
+                    if o.viol.is_some() {
+                        b = o;
+                    }
+                    break;
+                }
+                off += len;
+            }
+        }
         // thorough: additionally every single cut of 2-frame streams
         let mut c = None;
         if tier == Tier::Thorough && sq.len() == 2 {
